@@ -88,7 +88,7 @@ def check_length_reader(ctx, f):
             return ('err', v[2][0][1][len('Err::'):])
         return ('?', absx.fmt(v)[:70])
     def show(r):
-        return 'Ok((%s, %d))' % (hexs(r[1]), r[2]) if r[0] == 'ok' else 'Err(%s)' % r[1] if r[0] == 'err' else r[1]
+        return 'Ok((%s, %d))' % (hexs(r[1][:4]) + (' .. %d more' % (len(r[1]) - 4) if len(r[1]) > 4 else ''), r[2]) if r[0] == 'ok' else 'Err(%s)' % r[1] if r[0] == 'err' else r[1]
     # ---- every first octet: the form, the number of octets read, the remainder
     wrong = {'form-by-first-octet': [], 'short-form': [], 'long-form': []}
     for x in range(256):
@@ -162,7 +162,7 @@ def check_length_reader(ctx, f):
             % (n_short, bad[0][1] if bad else '', (' (and for first octets %s)' % xs_of(bad[1:])) if len(bad) > 1 else ''))
     ctx.floor('B2', 'short length fields evaluated', n_short, 8128)
     # ---- paths: nothing is refused for what the octets are
-    routs = [o for o in absx.Interp(f, RL, combinators=True).run() if o.kind in ('val', 'ret')]
+    routs = [o for o in absx.Interp(f, RL, combinators=True, generic_loops=True).run() if o.kind in ('val', 'ret')]          # (a loop over the length octets: one generic iteration, then on)
     def primitive(v):
         # a nom parser applied to input (directly, or the parser a combinator returned), the shared unsigned reader, a checked integer conversion
         def one(y):
